@@ -689,6 +689,18 @@ func (b *Builder) execChangePeerV2(needEnter bool, needTransferLeader bool) {
 	}
 	b.toDemote = newPeersMap()
 
+	// A ChangePeerV2 request that carries only one change is applied by the store as a simple conf
+	// change, the region never enters the joint state. Use the corresponding simple step then: the
+	// enter/leave pair would count a conf_ver change for a leave that never happens and would skip
+	// the leader check of a demotion.
+	if needEnter && !needTransferLeader && len(step.PromoteLearners)+len(step.DemoteVoters) == 1 {
+		if len(step.PromoteLearners) == 1 {
+			b.steps = append(b.steps, step.PromoteLearners[0])
+		} else {
+			b.steps = append(b.steps, DemoteFollower{ToStore: step.DemoteVoters[0].ToStore, PeerID: step.DemoteVoters[0].PeerID})
+		}
+		return
+	}
 	if needEnter {
 		b.steps = append(b.steps, step)
 	}
